@@ -456,7 +456,6 @@ smtp_rcpt(void)
 		
 		i++;
 	}
-	userconf_free(&ds);
 
 	/* has been mapped to FILTER_DENIED_TEMPORARY before */
 	assert(fr != FILTER_ERROR);
@@ -467,6 +466,7 @@ smtp_rcpt(void)
 
 	if (!filter_denied(fr)) {
 		/* accept mail */
+		userconf_free(&ds);
 		goodrcpt++;
 		r->ok = 1;
 		okmsg[1] = r->to.s;
@@ -512,6 +512,8 @@ smtp_rcpt(void)
 		i = 0;
 		break;
 	}
+	/* the settings above are read from ds, so it must not be released earlier */
+	userconf_free(&ds);
 
 	if (filter_denied(fr)) {
 		if (errmsg != NULL) {
